@@ -19,5 +19,8 @@ Definition slra_set_oracle (g : SeqLockRA.sgst) (o : list N) : SeqLockRA.sgst :=
   SeqLockRA.set_sg g (SeqLockRA.sg g) o (SeqLockRA.srace_used g) (SeqLockRA.svalidated g).
 Definition slra_race_used := SeqLockRA.srace_used.
 Definition slra_oracle := SeqLockRA.soracle.
-Extraction "../ocaml/c12/model.ml" slra_step1 slra_init slra_mk_ords slra_set_oracle slra_race_used slra_oracle sl_step1 sl_fstep1 sl_init sl_ops sl_store sl_loan sl_discard sl_final sl_in_copy N.of_nat N.to_nat
+Definition slra_ords_code := SeqLockRA.sl_ords_code.
+Definition slra_in_copy (l : SeqLockRA.slst) := SeqLock.in_copy (SeqLock.at_pc (SeqLockRA.ssc l)).
+Definition slra_final (g : SeqLockRA.sgst) := (SeqLock.wc (SeqLockRA.sg g), SeqLock.vhash (SeqLock.current (SeqLockRA.sg g))).
+Extraction "../ocaml/c12/model.ml" slra_ords_code slra_in_copy slra_final slra_step1 slra_init slra_mk_ords slra_set_oracle slra_race_used slra_oracle sl_step1 sl_fstep1 sl_init sl_ops sl_store sl_loan sl_discard sl_final sl_in_copy N.of_nat N.to_nat
   bb_new bb_step bb_sp_new bb_sp_step bb_sp_digest_ok bb_nwriters bb_nreaders.
